@@ -346,14 +346,16 @@ func nonces(txs types.Transactions) []uint64 {
 	return out
 }
 
-// gapClass names a nonce gap inside one account's pending list. When the transaction right below
-// the gap has been mined in some (necessarily abandoned) branch, the low part of the list was
-// re-injected by a reset: that is the known partial re-injection defect, kept apart from every
-// other way of producing a gap.
+// gapClass names a nonce gap inside one account's pending list. When the (sender, nonce) slot right
+// below the gap has been executed in some block (necessarily of an abandoned branch, the slot being
+// open again), the account nonce was lowered by a reorg and the low part of the list stems from a
+// re-injection: that is the known partial re-injection defect, kept apart from every other way of
+// producing a gap. The slot is used rather than the hash because a concurrent replacement may have
+// taken the re-injected transaction's place since.
 func (h *hist) gapClass(ptxs types.Transactions) (string, bool) {
 	for i := 1; i < len(ptxs); i++ {
 		if ptxs[i].Nonce() != ptxs[i-1].Nonce()+1 {
-			if h.fc.minedSomewhere(ptxs[i-1].Hash()) {
+			if from, err := types.Sender(h.sig, ptxs[i-1]); err == nil && h.fc.slotMinedSomewhere(from, ptxs[i-1].Nonce()) {
 				return "pending-nonce-gap-after-reinjection", true
 			}
 			return "pending-nonce-gap", true
